@@ -5,6 +5,26 @@
 From Apd Require Import Generated.Consts Model.Base Model.NumDigits Model.Decimal Model.Context Spec.SpecZ.
 Open Scope Z_scope.
 
+(* the executable instance of the model: Go's own float estimate *)
+Local Notation dcmp := (dcmp go_est).
+Local Notation cmp_total := (cmp_total go_est).
+Local Notation dreduce := (dreduce go_est).
+Local Notation ctx_add := (ctx_add go_est).
+Local Notation ctx_mul := (ctx_mul go_est).
+Local Notation ctx_quo := (ctx_quo go_est).
+Local Notation ctx_quo_integer := (ctx_quo_integer go_est).
+Local Notation ctx_rem := (ctx_rem go_est).
+Local Notation ctx_abs := (ctx_abs go_est).
+Local Notation ctx_neg := (ctx_neg go_est).
+Local Notation ctx_round_op := (ctx_round_op go_est).
+Local Notation ctx_reduce := (ctx_reduce go_est).
+Local Notation ctx_quantize := (ctx_quantize go_est).
+Local Notation ctx_rti_value := (ctx_rti_value go_est).
+Local Notation ctx_rti_exact := (ctx_rti_exact go_est).
+Local Notation ctx_ceil := (ctx_ceil go_est).
+Local Notation ctx_floor := (ctx_floor go_est).
+Local Notation ctx_cmp := (ctx_cmp go_est).
+
 Inductive op :=
 | OAdd | OSub | OMul | OQuo | OQuoInteger | ORem | OAbs | ONeg | ORound | OReduce | OQuantize
 | ORtiv | ORtie | OCeil | OFloor | OCmp.
@@ -293,6 +313,9 @@ Definition oracle_c09 (k : acase) (o : obs) : list Z :=
   match a_op k with
   | OQuantize =>
       let e := a_e k in
+      (* a target exponent beyond the package limits cannot be the exponent of a well-formed
+         Decimal: the property does not say what happens there *)
+      if (e <? MinExponent) || (e >? MaxExponent) then [] else
       let '(q, inex) := quantize_int (rounding c) x e in
       let invalid := (ndigits q >? prec c) || (e <? etiny c) || (e >? emax c)
                      || (negb (q =? 0) && (e + ndigits q - 1 >? emax c)) in
